@@ -65,7 +65,7 @@ func (p *c03) Run(w *lib.Worker, idx int, r *lib.Rand) lib.Case {
 			c.Sample = sample
 			return c
 		}
-		if o.Panic != "" && cfg.Continue && sut.IsDocumentedSchemaPanic(o.Panic) && docHasUnresolvableRef(text) {
+		if knownC07Panic(o, cfg.Continue, text) {
 			c.Tags = append(c.Tags, "skipped:known-C07-panic") // recorded under C07; not a matter of this property
 			return c
 		}
